@@ -300,21 +300,98 @@ def isJumpOp (op : Nat) : Bool := op == OpJump || op == OpJumpFalsy || op == OpA
 /-- CONSTANT and CLOSURE: the first (2-byte) operand indexes the constant pool -/
 def isConstOp (op : Nat) : Bool := op == OpConstant || op == OpClosure
 
+def isLocalOp (op : Nat) : Bool := op == OpGetLocal || op == OpSetLocal || op == OpDefineLocal || op == OpGetLocalPtr
+def isFreeOp (op : Nat) : Bool := op == OpGetFree || op == OpSetFree || op == OpGetFreePtr
+def isGlobalOp (op : Nat) : Bool := op == OpGetGlobal || op == OpSetGlobal
+
+/-- number of builtin objects (regenerated: `Gen.numBuiltins`) -/
+abbrev NB : Nat := Gen.numBuiltins
+
+/-- every GETFREE / SETFREE / GETFREEPTR of the stream addresses one of `n` free variables -/
+def FreeBound (n : Nat) (a : Array UInt8) : Prop :=
+  ∀ p op, Bd a p → a[p]? = some op → isFreeOp op.toNat = true → readBE a (p + 1) 1 < n
+
+/-- `a'` extends the constant pool `a` -/
+def CPre (cs cs' : Array Const) : Prop := cs.size ≤ cs'.size ∧ ∀ i, i < cs.size → cs'[i]? = cs[i]?
+
+theorem CPre.refl (cs : Array Const) : CPre cs cs := ⟨Nat.le_refl _, fun _ _ => rfl⟩
+theorem CPre.trans {a b c : Array Const} (h : CPre a b) (h' : CPre b c) : CPre a c :=
+  ⟨Nat.le_trans h.1 h'.1, fun i hi => by rw [h'.2 i (by have := h.1; omega), h.2 i hi]⟩
+theorem CPre.push (cs : Array Const) (c : Const) : CPre cs (cs.push c) :=
+  ⟨by simp, fun i hi => by simp [Array.getElem?_push, hi]; omega⟩
+theorem CPre.get {cs cs' : Array Const} (h : CPre cs cs') {i : Nat} {c : Const} (hc : cs[i]? = some c) : cs'[i]? = some c := by
+  have hi : i < cs.size := by
+    rcases Nat.lt_or_ge i cs.size with h' | h'
+    · exact h'
+    · simp [Array.getElem?_eq_none h'] at hc
+  rw [h.2 i hi]; exact hc
+
+/-- the quantities the operand conditions refer to: the constant pool, the number of locals of the
+    function being compiled (`maxDefinition` of its table), the number of its free variables -/
+structure Lims where
+  cs : Array Const
+  nl : Nat
+  nf : Nat
+
+def Lims.le (L L' : Lims) : Prop := CPre L.cs L'.cs ∧ L.nl ≤ L'.nl ∧ L.nf ≤ L'.nf
+theorem Lims.le_refl (L : Lims) : L.le L := ⟨CPre.refl _, Nat.le_refl _, Nat.le_refl _⟩
+theorem Lims.le_trans {a b c : Lims} (h : a.le b) (h' : b.le c) : a.le c :=
+  ⟨h.1.trans h'.1, Nat.le_trans h.2.1 h'.2.1, Nat.le_trans h.2.2 h'.2.2⟩
+
+/-- condition on the first operand `v` of an instruction that carries an index:
+    free-variable slot, builtin number, constant index of a global's name, constant index.
+    (Local slots are not covered: `DefineLocal(":array")` and a `catch` identifier may return an
+    existing symbol of any scope, whose index the compiler emits as a local slot; ruling that out
+    needs identifier hygiene of the AST — see the design note.) -/
+def Opnd1OK (L : Lims) (op v : Nat) : Prop :=
+  (isFreeOp op = true → v < L.nf) ∧ (op = OpGetBuiltin → v < NB) ∧
+  (isGlobalOp op = true → ∃ b, L.cs[v]? = some (.val (.str b))) ∧
+  (isConstOp op = true → v < L.cs.size) ∧
+  (op = OpConstant → ∀ f, L.cs[v]? = some (.fn f) → FreeBound 0 f.insts)
+
+theorem Opnd1OK.mono {L L' : Lims} {op v : Nat} (h : Opnd1OK L op v) (hl : L.le L') : Opnd1OK L' op v := by
+  obtain ⟨h2, h3, h4, h5, h6⟩ := h
+  refine ⟨fun c => Nat.lt_of_lt_of_le (h2 c) hl.2.2, h3, ?_, ?_, ?_⟩
+  · intro c; obtain ⟨b, hb⟩ := h4 c; exact ⟨b, hl.1.get hb⟩
+  · intro c; exact Nat.lt_of_lt_of_le (h5 c) hl.1.1
+  · intro c f hf
+    have hv : v < L.cs.size := h5 (by rw [c]; rfl)
+    rw [hl.1.2 v hv] at hf
+    exact h6 c f hf
+
+/-- an opcode none of whose operands is an index -/
+def PlainIdx (op : Nat) : Prop :=
+  isFreeOp op = false ∧ op ≠ OpGetBuiltin ∧ isGlobalOp op = false ∧ isConstOp op = false
+
+instance (op : Nat) : Decidable (PlainIdx op) := by unfold PlainIdx; infer_instance
+
+theorem PlainIdx.opnd {op : Nat} (h : PlainIdx op) (L : Lims) (v : Nat) : Opnd1OK L op v := by
+  obtain ⟨h2, h3, h4, h5⟩ := h
+  refine ⟨fun c => ?_, fun c => absurd c h3, fun c => ?_, fun c => ?_, fun c => ?_⟩
+  · rw [h2] at c; cases c
+  · rw [h4] at c; cases c
+  · rw [h5] at c; cases c
+  · rw [c] at h5; cases h5
+
 /-- operand condition of the instruction at `p`: the operand of a jump-class instruction and both
-    operands of SETUPTRY are instruction boundaries (0 = "no catch" is one) -/
-def TgtOK (nc : Nat) (a : Array UInt8) (p op : Nat) : Prop :=
+    operands of SETUPTRY are instruction boundaries (0 = "no catch" is one); an index operand is in
+    range (`Opnd1OK`); the function a CLOSURE instantiates uses no more free variables than the
+    CLOSURE supplies -/
+def TgtOK (L : Lims) (a : Array UInt8) (p op : Nat) : Prop :=
   (isJumpOp op = true → Walk a 0 (readBE a (p + 1) 4)) ∧
   (op = OpSetupTry → Walk a 0 (readBE a (p + 1) 4) ∧ Walk a 0 (readBE a (p + 5) 4)) ∧
-  (isConstOp op = true → readBE a (p + 1) 2 < nc)
+  (∀ w ws, operandWidths op = w :: ws → Opnd1OK L op (readBE a (p + 1) w)) ∧
+  (op = OpClosure → ∃ f, L.cs[readBE a (p + 1) 2]? = some (.fn f) ∧ FreeBound (readBE a (p + 3) 1) f.insts)
 
-/-- `nc` is the size of the constant pool: the first operand of CONSTANT / CLOSURE is below it -/
-def TargetsOK (nc : Nat) (a : Array UInt8) : Prop := ∀ p op, Bd a p → a[p]? = some op → TgtOK nc a p op.toNat
+def TargetsOK (L : Lims) (a : Array UInt8) : Prop := ∀ p op, Bd a p → a[p]? = some op → TgtOK L a p op.toNat
 
 /-- what `emit` / `changeOperand` must be given for such an instruction -/
-def ArgsOK (nc : Nat) (a : Array UInt8) (op : Nat) (args : List Int) : Prop :=
+def ArgsOK (L : Lims) (a : Array UInt8) (op : Nat) (args : List Int) : Prop :=
   (isJumpOp op = true → ∃ t : Nat, args = [(t : Int)] ∧ Walk a 0 t) ∧
   (op = OpSetupTry → ∃ t1 t2 : Nat, args = [(t1 : Int), (t2 : Int)] ∧ Walk a 0 t1 ∧ Walk a 0 t2) ∧
-  (isConstOp op = true → ∃ (i : Nat) (rest : List Int), args = (i : Int) :: rest ∧ i < nc)
+  (∀ (i : Nat) (rest : List Int), args = (i : Int) :: rest → Opnd1OK L op i) ∧
+  (op = OpClosure → ∀ (i n : Nat), args = [(i : Int), (n : Int)] →
+    ∃ f, L.cs[i]? = some (.fn f) ∧ FreeBound n f.insts)
 
 theorem readBE4 (a : Array UInt8) (i : Nat) : readBE a i 4 =
     (((a[i]?.getD 0).toNat * 256 + (a[i + 1]?.getD 0).toNat) * 256 + (a[i + 2]?.getD 0).toNat) * 256
@@ -349,6 +426,43 @@ theorem makeInstruction_read {op : Nat} {args : List Int} {opb : UInt8} {rest : 
       injection h with _ h
       subst h
       exact readOperands_encode _ _ _ (operandWidths_mem op) (by simpa using hlen) hr
+    · cases h
+
+theorem makeInstruction_len {op : Nat} {args : List Int} {bs : List UInt8} (h : makeInstruction op args = .ok bs) :
+    (operandWidths op).length = args.length := by
+  unfold makeInstruction at h
+  split at h
+  · cases h
+  · rename_i hl; simpa using hl
+
+/-- every operand of an encoded instruction lies in `[0, max]` -/
+def fitsAll : List Nat → List Int → Prop
+  | w :: ws, a :: as => (0 ≤ a ∧ a ≤ maxOf w) ∧ fitsAll ws as
+  | _, _ => True
+
+theorem encodeOperands_fits : ∀ (ws : List Nat) (as : List Int) (bs : List UInt8),
+    encodeOperands ws as = .ok bs → fitsAll ws as
+  | [], _, _, _ => by simp [fitsAll]
+  | _ :: _, [], _, _ => by simp [fitsAll]
+  | w :: ws, a :: as, bs, h => by
+    simp only [encodeOperands] at h
+    split at h
+    · cases h
+    · split at h
+      · cases h
+      · split at h
+        · rename_i bs' hb
+          exact ⟨⟨by omega, by omega⟩, encodeOperands_fits ws as bs' hb⟩
+        · cases h
+
+theorem makeInstruction_fits {op : Nat} {args : List Int} {bs : List UInt8} (h : makeInstruction op args = .ok bs) :
+    fitsAll (operandWidths op) args := by
+  unfold makeInstruction at h
+  split at h
+  · cases h
+  · split at h
+    · rename_i rest hr
+      exact encodeOperands_fits _ _ _ hr
     · cases h
 
 theorem isJumpOp_widths {op : Nat} (h : isJumpOp op = true) : operandWidths op = [4] := by
@@ -411,48 +525,75 @@ theorem readBE2_congr {a a' : Array UInt8} {i : Nat} (h : ∀ k, k < 2 → a'[i 
 theorem isConstOp_cases {op : Nat} (h : isConstOp op = true) : op = OpConstant ∨ op = OpClosure := by
   simpa [isConstOp] using h
 
-theorem opWidth_const {op : Nat} (h : isConstOp op = true) : 2 ≤ opWidth op := by
-  rcases isConstOp_cases h with h | h <;> subst h <;> decide
+theorem readBE1 (a : Array UInt8) (i : Nat) : readBE a i 1 = (a[i]?.getD 0).toNat := by
+  simp [readBE, List.range, List.range.loop]
 
-/-- decoding the constant index of a CONSTANT / CLOSURE instruction found in the stream -/
-theorem inst_read_const {a : Array UInt8} {p op : Nat} {args rest' : List Int} {opb : UInt8} {rest : List UInt8} {i : Nat}
-    (h : makeInstruction op args = .ok (opb :: rest)) (hc : isConstOp op = true) (ha : args = (i : Int) :: rest')
-    (hat : InstAt a p (opb :: rest)) : readBE a (p + 1) 2 = i := by
+theorem readBE1_congr {a a' : Array UInt8} {i : Nat} (h : a'[i]? = a[i]?) : readBE a' i 1 = readBE a i 1 := by
+  rw [readBE1, readBE1, h]
+
+/-- reading `w` bytes that are the first `w` bytes of `bs` -/
+theorem readBE_take {a : Array UInt8} {i w : Nat} {bs : List UInt8} (hw : w = 1 ∨ w = 2 ∨ w = 4) (hl : w ≤ bs.length)
+    (h : ∀ k, k < w → a[i + k]? = bs[k]?) : readBE a i w = beVal (bs.take w) := by
+  rcases hw with rfl | rfl | rfl
+  · match bs, hl with
+    | b0 :: tl, _ =>
+      have h0 := h 0 (by omega)
+      simp at h0
+      rw [readBE1, h0]; simp [beVal]
+  · match bs, hl with
+    | b0 :: b1 :: tl, _ =>
+      have h0 := h 0 (by omega); have h1 := h 1 (by omega)
+      simp at h0 h1
+      rw [readBE2, h0, h1]; simp [beVal]
+  · match bs, hl with
+    | b0 :: b1 :: b2 :: b3 :: tl, _ =>
+      have h0 := h 0 (by omega); have h1 := h 1 (by omega); have h2 := h 2 (by omega); have h3 := h 3 (by omega)
+      simp at h0 h1 h2 h3
+      rw [readBE4, h0, h1, h2, h3]; simp [beVal]
+
+/-- decoding the first operand of an instruction found in the stream -/
+theorem inst_read_first {a : Array UInt8} {p op w : Nat} {ws : List Nat} {args rest' : List Int} {opb : UInt8}
+    {rest : List UInt8} {i : Nat}
+    (h : makeInstruction op args = .ok (opb :: rest)) (hw : operandWidths op = w :: ws) (ha : args = (i : Int) :: rest')
+    (hat : InstAt a p (opb :: rest)) : readBE a (p + 1) w = i := by
   have hr := makeInstruction_read h
   obtain ⟨rest2, hbs, hl⟩ := makeInstruction_ok h
   injection hbs with _ hbs
   subst hbs
-  rcases isConstOp_cases hc with hop | hop
-  · subst hop
-    have hw : operandWidths OpConstant = [2] := rfl
-    rw [hw] at hr
-    simp only [opWidth, hw, List.sum_cons, List.sum_nil] at hl
-    match rest, hl with
-    | [b0, b1], _ =>
-      simp only [readOperands, ha] at hr
-      have h0 := hat 1 (by simp); have h1 := hat 2 (by simp)
-      simp only [List.getElem?_cons_succ, List.getElem?_cons_zero] at h0 h1
-      rw [readBE2, h0, show p + 1 + 1 = p + 2 by omega, h1]
-      simp only [Option.getD_some]
-      have hr1 : Int.ofNat (beVal (List.take 2 [b0, b1])) = (i : Int) := by
-        injection hr
-      simp only [List.take, beVal, List.foldl, Nat.zero_mul, Nat.zero_add] at hr1
-      exact Int.ofNat.inj hr1
-  · subst hop
-    have hw : operandWidths OpClosure = [2, 1] := rfl
-    rw [hw] at hr
-    simp only [opWidth, hw, List.sum_cons, List.sum_nil] at hl
-    match rest, hl with
-    | [b0, b1, b2], _ =>
-      simp only [readOperands, ha] at hr
-      have h0 := hat 1 (by simp); have h1 := hat 2 (by simp)
-      simp only [List.getElem?_cons_succ, List.getElem?_cons_zero] at h0 h1
-      rw [readBE2, h0, show p + 1 + 1 = p + 2 by omega, h1]
-      simp only [Option.getD_some]
-      have hr1 : Int.ofNat (beVal (List.take 2 [b0, b1, b2])) = (i : Int) := by
-        injection hr
-      simp only [List.take, beVal, List.foldl, Nat.zero_mul, Nat.zero_add] at hr1
-      exact Int.ofNat.inj hr1
+  rw [hw, ha] at hr
+  simp only [readOperands] at hr
+  injection hr with hr _
+  have hwm := operandWidths_mem op w (by rw [hw]; simp)
+  have hlen : w ≤ rest.length := by rw [hl]; simp [opWidth, hw]
+  rw [readBE_take (bs := rest) hwm hlen]
+  · exact Int.ofNat.inj hr
+  · intro k hk
+    have := hat (k + 1) (by simp; omega)
+    rw [show p + 1 + k = p + (k + 1) by omega]
+    simpa using this
+
+/-- decoding the second (1-byte) operand of a CLOSURE instruction -/
+theorem inst_read_closure2 {a : Array UInt8} {p : Nat} {args : List Int} {opb : UInt8} {rest : List UInt8} {i n : Nat}
+    (h : makeInstruction OpClosure args = .ok (opb :: rest)) (ha : args = [(i : Int), (n : Int)])
+    (hat : InstAt a p (opb :: rest)) : readBE a (p + 3) 1 = n := by
+  have hr := makeInstruction_read h
+  obtain ⟨rest2, hbs, hl⟩ := makeInstruction_ok h
+  injection hbs with _ hbs
+  subst hbs
+  have hw : operandWidths OpClosure = [2, 1] := rfl
+  rw [hw, ha] at hr
+  simp only [opWidth, hw, List.sum_cons, List.sum_nil] at hl
+  match rest, hl with
+  | [b0, b1, b2], _ =>
+    simp only [readOperands] at hr
+    injection hr with _ hr
+    injection hr with hr _
+    have h3 := hat 3 (by simp)
+    simp at h3
+    rw [readBE1, h3]
+    simp [beVal] at hr
+    simp only [Option.getD_some]
+    exact_mod_cast hr
 
 theorem getElem?_lt_of_some {a : Array UInt8} {i : Nat} {b : UInt8} (h : a[i]? = some b) : i < a.size := by
   rcases Nat.lt_or_ge i a.size with h' | h'
@@ -546,11 +687,22 @@ theorem Walk.unpatch_inst {a : Array UInt8} {p j : Nat} {op : UInt8} {rest : Lis
 
 theorem opWidth_jump {op : Nat} (h : isJumpOp op = true) : opWidth op = 4 := by simp [opWidth, isJumpOp_widths h]
 
+/-- every operand width of a known opcode's first operand is within the instruction -/
+theorem first_width_le {op w : Nat} {ws : List Nat} (h : operandWidths op = w :: ws) : w ≤ opWidth op := by
+  simp [opWidth, h]
+
 /-- the operand condition of an instruction whose bytes are untouched carries over -/
-theorem TgtOK.transfer {nc nc' : Nat} {a a' : Array UInt8} {p op : Nat} (h : TgtOK nc a p op) (hn : nc ≤ nc')
+theorem TgtOK.transfer {L L' : Lims} {a a' : Array UInt8} {p op : Nat} (h : TgtOK L a p op) (hn : L.le L')
     (hw : ∀ t, Walk a 0 t → Walk a' 0 t)
-    (hb : ∀ k, k < opWidth op → a'[p + 1 + k]? = a[p + 1 + k]?) : TgtOK nc' a' p op := by
-  refine ⟨?_, ?_, ?_⟩
+    (hb : ∀ k, k < opWidth op → a'[p + 1 + k]? = a[p + 1 + k]?) : TgtOK L' a' p op := by
+  have hrd : ∀ w ws, operandWidths op = w :: ws → readBE a' (p + 1) w = readBE a (p + 1) w := by
+    intro w ws hws
+    have hle := first_width_le hws
+    rcases operandWidths_mem op w (by rw [hws]; simp) with rfl | rfl | rfl
+    · exact readBE1_congr (by have := hb 0 (by omega); simpa using this)
+    · exact readBE2_congr (fun k hk => hb k (by omega))
+    · exact readBE4_congr (fun k hk => hb k (by omega))
+  refine ⟨?_, ?_, ?_, ?_⟩
   · intro hj
     have hwd := opWidth_jump hj
     rw [readBE4_congr (fun k hk => hb k (by omega))]
@@ -568,13 +720,21 @@ theorem TgtOK.transfer {nc nc' : Nat} {a a' : Array UInt8} {p op : Nat} (h : Tgt
       exact this
     rw [e1, e2]
     exact ⟨hw _ h2.1, hw _ h2.2⟩
+  · intro w ws hws
+    rw [hrd w ws hws]
+    exact (h.2.2.1 w ws hws).mono hn
   · intro hc
-    have hwd := opWidth_const hc
-    rw [readBE2_congr (fun k hk => hb k (by omega))]
-    have := h.2.2 hc
-    omega
+    subst hc
+    have hws : operandWidths OpClosure = [2, 1] := rfl
+    have hwd : opWidth OpClosure = 3 := rfl
+    obtain ⟨f, hf, hfb⟩ := h.2.2.2 rfl
+    rw [hrd 2 [1] hws]
+    have e3 : readBE a' (p + 3) 1 = readBE a (p + 3) 1 :=
+      readBE1_congr (by have := hb 2 (by omega); simpa [Nat.add_assoc] using this)
+    rw [e3]
+    exact ⟨f, hn.1.get hf, hfb⟩
 
-theorem TargetsOK.mono {nc nc' : Nat} {a : Array UInt8} (h : TargetsOK nc a) (hn : nc ≤ nc') : TargetsOK nc' a :=
+theorem TargetsOK.mono {L L' : Lims} {a : Array UInt8} (h : TargetsOK L a) (hn : L.le L') : TargetsOK L' a :=
   fun p op hbd hop => (h p op hbd hop).transfer hn (fun _ h => h) (fun _ _ => rfl)
 
 /-- the instruction at an inner boundary is complete -/
@@ -588,9 +748,53 @@ theorem Bd.fit {a : Array UInt8} {p : Nat} {op : UInt8} (h : Bd a p) (hw : Walk 
       subst this; exact h3
   · have := h'.le; have := h.2; omega
 
-theorem TargetsOK.append_inst {nc : Nat} {a : Array UInt8} {op : Nat} {args : List Int} {bs : List UInt8}
-    (hw : Walk a 0 a.size) (ht : TargetsOK nc a) (hop : op < numOpcodes)
-    (hm : makeInstruction op args = .ok bs) (ha : ArgsOK nc a op args) : TargetsOK nc (a ++ bs.toArray) := by
+/-- the operand condition of a freshly written instruction follows from the condition on its arguments -/
+theorem tgtOK_of_args {L : Lims} {a a' : Array UInt8} {P op : Nat} {args : List Int} {opb : UInt8} {rest : List UInt8}
+    (hm : makeInstruction op args = .ok (opb :: rest)) (ha : ArgsOK L a op args) (hat : InstAt a' P (opb :: rest))
+    (hfw : ∀ t, Walk a 0 t → Walk a' 0 t) : TgtOK L a' P op := by
+  refine ⟨?_, ?_, ?_, ?_⟩
+  · intro hj
+    obtain ⟨t, hargs, hwt⟩ := ha.1 hj
+    rw [inst_read_jump hm hj hargs hat]
+    exact hfw _ hwt
+  · intro htry
+    obtain ⟨t1, t2, hargs, h1, h2⟩ := ha.2.1 htry
+    rw [htry] at hm
+    obtain ⟨e1, e2⟩ := inst_read_try hm hargs hat
+    rw [e1, e2]
+    exact ⟨hfw _ h1, hfw _ h2⟩
+  · intro w ws hws
+    -- the first argument is a natural number (the instruction was encoded)
+    have hlen := makeInstruction_len hm
+    rw [hws] at hlen
+    match args, hlen with
+    | x :: rest', _ =>
+      have hnn : ∃ i : Nat, x = (i : Int) := by
+        have hfit := (makeInstruction_fits hm)
+        rw [hws] at hfit
+        exact ⟨x.toNat, (Int.toNat_of_nonneg hfit.1.1).symm⟩
+      obtain ⟨i, hi⟩ := hnn
+      subst hi
+      rw [inst_read_first hm hws rfl hat]
+      exact ha.2.2.1 i rest' rfl
+  · intro hc
+    subst hc
+    have hws : operandWidths OpClosure = [2, 1] := rfl
+    have hlen := makeInstruction_len hm
+    rw [hws] at hlen
+    match args, hlen with
+    | [x, y], _ =>
+      have hfit := (makeInstruction_fits hm)
+      rw [hws] at hfit
+      obtain ⟨i, hi⟩ : ∃ i : Nat, x = (i : Int) := ⟨x.toNat, (Int.toNat_of_nonneg hfit.1.1).symm⟩
+      obtain ⟨n, hn⟩ : ∃ n : Nat, y = (n : Int) := ⟨y.toNat, (Int.toNat_of_nonneg hfit.2.1.1).symm⟩
+      subst hi hn
+      rw [inst_read_first hm hws rfl hat, inst_read_closure2 hm rfl hat]
+      exact ha.2.2.2 rfl i n rfl
+
+theorem TargetsOK.append_inst {L : Lims} {a : Array UInt8} {op : Nat} {args : List Int} {bs : List UInt8}
+    (hw : Walk a 0 a.size) (ht : TargetsOK L a) (hop : op < numOpcodes)
+    (hm : makeInstruction op args = .ok bs) (ha : ArgsOK L a op args) : TargetsOK L (a ++ bs.toArray) := by
   obtain ⟨rest, hbs, hl⟩ := makeInstruction_ok hm
   subst hbs
   have hpre : Pre a (a ++ (UInt8.ofNat op :: rest).toArray) :=
@@ -608,7 +812,7 @@ theorem TargetsOK.append_inst {nc : Nat} {a : Array UInt8} {op : Nat} {args : Li
     have hgeta : a[p]? = some opb := by rw [← hpre.2 p hlt]; exact hget
     have hold := ht p opb ⟨hbdp, hlt⟩ hgeta
     have hfit := Bd.fit ⟨hbdp, hlt⟩ hw hgeta
-    exact hold.transfer (Nat.le_refl _) (fun t h => h.pre hpre) (fun k hk => hpre.2 _ (by omega))
+    exact hold.transfer (Lims.le_refl _) (fun t h => h.pre hpre) (fun k hk => hpre.2 _ (by omega))
   · have hpe : p = a.size := by
       rcases hw'.comparable hbd.1 with h | h
       · cases h with
@@ -630,25 +834,11 @@ theorem TargetsOK.append_inst {nc : Nat} {a : Array UInt8} {op : Nat} {args : Li
       intro k hk
       rw [Array.getElem?_append_right (by omega)]
       simp
-    refine ⟨?_, ?_, ?_⟩
-    · intro hj
-      obtain ⟨t, hargs, hwt⟩ := ha.1 hj
-      rw [inst_read_jump hm hj hargs hat]
-      exact hwt.pre hpre
-    · intro htry
-      subst htry
-      obtain ⟨t1, t2, hargs, h1, h2⟩ := ha.2.1 rfl
-      obtain ⟨e1, e2⟩ := inst_read_try hm hargs hat
-      rw [e1, e2]
-      exact ⟨h1.pre hpre, h2.pre hpre⟩
-    · intro hc
-      obtain ⟨i, rest', hargs, hi⟩ := ha.2.2 hc
-      rw [inst_read_const hm hc hargs hat]
-      exact hi
+    exact tgtOK_of_args hm ha hat (fun t h => h.pre hpre)
 
-theorem TargetsOK.patch_inst {nc : Nat} {a : Array UInt8} {q : Nat} {opq : UInt8} {args : List Int} {bs : List UInt8}
-    (hw : Walk a 0 a.size) (ht : TargetsOK nc a) (hq : Walk a 0 q) (hop : a[q]? = some opq)
-    (hm : makeInstruction opq.toNat args = .ok bs) (ha : ArgsOK nc a opq.toNat args) : TargetsOK nc (patch a q bs) := by
+theorem TargetsOK.patch_inst {L : Lims} {a : Array UInt8} {q : Nat} {opq : UInt8} {args : List Int} {bs : List UInt8}
+    (hw : Walk a 0 a.size) (ht : TargetsOK L a) (hq : Walk a 0 q) (hop : a[q]? = some opq)
+    (hm : makeInstruction opq.toNat args = .ok bs) (ha : ArgsOK L a opq.toNat args) : TargetsOK L (patch a q bs) := by
   obtain ⟨rest, hbs, hl⟩ := makeInstruction_ok hm
   subst hbs
   have hofn : UInt8.ofNat opq.toNat = opq := by simp
@@ -669,27 +859,13 @@ theorem TargetsOK.patch_inst {nc : Nat} {a : Array UInt8} {q : Nat} {opq : UInt8
           have : op' = opb := by rw [hgeta] at h1; injection h1 with h; exact h.symm
           subst this; exact h4.le
       · have := h.le; omega
-    exact (ht p opb hbdp hgeta).transfer (Nat.le_refl _) hfw (fun k hk => patch_get_lt _ _ _ _ (by omega))
+    exact (ht p opb hbdp hgeta).transfer (Lims.le_refl _) hfw (fun k hk => patch_get_lt _ _ _ _ (by omega))
   · subst heq
     have hopb : opb = opq := by rw [patch_get_head _ _ _ _ hqs] at hget; injection hget with h; exact h.symm
     subst hopb
     have hat : InstAt (patch a p (opb :: rest)) p (opb :: rest) :=
       fun k hk => patch_get_mid _ _ _ _ hk (by simp [hl]; omega)
-    refine ⟨?_, ?_, ?_⟩
-    · intro hj
-      obtain ⟨t, hargs, hwt⟩ := ha.1 hj
-      rw [inst_read_jump hm hj hargs hat]
-      exact hfw _ hwt
-    · intro htry
-      obtain ⟨t1, t2, hargs, h1, h2⟩ := ha.2.1 htry
-      rw [htry] at hm
-      obtain ⟨e1, e2⟩ := inst_read_try hm hargs hat
-      rw [e1, e2]
-      exact ⟨hfw _ h1, hfw _ h2⟩
-    · intro hc
-      obtain ⟨i, rest', hargs, hi⟩ := ha.2.2 hc
-      rw [inst_read_const hm hc hargs hat]
-      exact hi
+    exact tgtOK_of_args hm ha hat hfw
   · -- after the patched instruction
     have hnext : q + 1 + opWidth opq.toNat ≤ p := by
       rcases hq.comparable hbdp.1 with h | h
@@ -701,8 +877,7 @@ theorem TargetsOK.patch_inst {nc : Nat} {a : Array UInt8} {q : Nat} {opq : UInt8
       · have := h.le; omega
     have hgeta : a[p]? = some opb := by
       rw [← patch_get_ge (opq :: rest) a q p (by simp [hl]; omega)]; exact hget
-    exact (ht p opb hbdp hgeta).transfer (Nat.le_refl _) hfw (fun k hk => patch_get_ge _ _ _ _ (by simp [hl]; omega))
-
+    exact (ht p opb hbdp hgeta).transfer (Lims.le_refl _) hfw (fun k hk => patch_get_ge _ _ _ _ (by simp [hl]; omega))
 
 /-- patching the instruction at a boundary leaves the opcode byte of every boundary alone -/
 theorem Walk.patch_get {a : Array UInt8} {p k : Nat} {op : UInt8} {rest : List UInt8}
@@ -732,11 +907,11 @@ theorem Jumpy.pre {a a' : Array UInt8} {p : Nat} (h : Jumpy a p) (hp : Pre a a')
   obtain ⟨op, h1, h2⟩ := h
   exact ⟨op, by rw [hp.2 p (getElem?_lt_of_some h1)]; exact h1, h2⟩
 
-theorem jumpy_not_const {op : Nat} (h : isJumpOp op = true ∨ op = OpSetupTry) : isConstOp op = false := by
+theorem jumpy_plain {op : Nat} (h : isJumpOp op = true ∨ op = OpSetupTry) : PlainIdx op := by
   rcases h with h | h
   · simp [isJumpOp] at h
-    rcases h with ((h | h) | h) | h <;> subst h <;> rfl
-  · subst h; rfl
+    rcases h with ((h | h) | h) | h <;> subst h <;> decide
+  · subst h; decide
 
 theorem findConst_lt {cs : Array Const} {k : CVal} {i : Nat} (h : findConst cs k = some i) : i < cs.size := by
   unfold findConst at h
